@@ -1,0 +1,14 @@
+//go:build verif
+// +build verif
+
+package bip39
+
+import "io"
+
+// VerifSwapRandSource replaces the randomness source consulted by NewMnemonic
+// and returns the previous one. It exists only in builds with the "verif" tag.
+func VerifSwapRandSource(r io.Reader) (prev io.Reader) {
+	prev = cryptoRander
+	cryptoRander = r
+	return prev
+}
